@@ -57,10 +57,11 @@ def main():
     #      Proofs/StudySrcP.v).  bin/build translates /repo; when the tree under test is a scratch
     #      copy (TOASTY_REPO), translate it here and check the same proofs against it privately.
     translated = None
+    BUILDER_TIE = ("builder", "BuilderSrc", "BuilderSrcP", "toasty/builder.py (class Builder, straight-line methods)", "scripts of Model/BuilderScript.v")
     TIES = {"C13": [("pyramid", "PyramidSrc", "PyramidSrcP", "toasty/pyramid.py", "position algebra and generators")],
-            "C08": [("study", "StudySrc", "StudySrcP", "toasty/study.py", "StudyTiling model")],
+            "C08": [("study", "StudySrc", "StudySrcP", "toasty/study.py", "StudyTiling model"), BUILDER_TIE],
             "C17": [("paths", "PathSrc", "PathSrcP", "toasty/pyramid.py (class PyramidIO, tile naming)", "naming model (Model/Paths.v)"),
-                    ("cli_wwtl", "CliWwtlSrc", "CliWwtlP", "toasty/cli.py (tile_wwtl_impl)", "model of the command (Model/CliScript.v)")],
+                    ("cli_wwtl", "CliWwtlSrc", "CliWwtlP", "toasty/cli.py (tile_wwtl_impl)", "model of the command (Model/CliScript.v)"), BUILDER_TIE],
             "C07": [("script", "ScriptSrc", "ScriptSrcP", "toasty/fits_tiler.py (FitsTiler._tile_toast)", "script of calls (Model/TileToastScript.v)")],
             "C02": [("cli_cascade", "CliCascadeSrc", "CliCascadeP", "toasty/cli.py (cascade_impl)", "model of the command (Model/CliScript.v)")],
             "C03": [("cli_transform", "CliTransformSrc", "CliTransformP", "toasty/cli.py (transform_impl)", "model of the command (Model/CliScript.v)")],
@@ -76,14 +77,16 @@ def main():
                     "paths": py2coq.translate_paths, "script": py2coq.translate_script,
                     "cli_cascade": py2coq.translate_cli_cascade, "cli_transform": py2coq.translate_cli_transform,
                     "cli_allsky": py2coq.translate_cli_allsky, "cli_multi_tan": py2coq.translate_cli_multi_tan,
-                    "cli_healpix": py2coq.translate_cli_healpix, "cli_wwtl": py2coq.translate_cli_wwtl}[which](common.REPO)
+                    "cli_healpix": py2coq.translate_cli_healpix, "cli_wwtl": py2coq.translate_cli_wwtl,
+                    "builder": py2coq.translate_builder}[which](common.REPO)
             funcs = {"pyramid": py2coq.PYRAMID_FUNCS,
                      "study": ["next_highest_power_of_2"] + ["StudyTiling." + m for m in py2coq.STUDY_METHODS],
                      "paths": ["PyramidIO." + m for m in py2coq.PATH_METHODS],
                      "script": ["FitsTiler._tile_toast"], "cli_cascade": ["cli.cascade_impl"],
                      "cli_transform": ["cli.transform_impl"], "cli_allsky": ["cli.tile_allsky_impl"],
                      "cli_multi_tan": ["cli.tile_multi_tan_impl", "cli.view_locally"],
-                     "cli_healpix": ["cli.tile_healpix_impl"], "cli_wwtl": ["cli.tile_wwtl_impl"]}[which]
+                     "cli_healpix": ["cli.tile_healpix_impl"], "cli_wwtl": ["cli.tile_wwtl_impl"],
+                     "builder": ["Builder." + m for m in py2coq.BUILDER_METHODS]}[which]
             translated = dict(source=srcname, functions=funcs, sha256=hashlib.sha256(text.encode()).hexdigest()[:16])
             translated_all.append(translated)
             tree_file = common.COQ / "theories" / "Generated" / (gen + ".v")
